@@ -179,13 +179,15 @@ class World (object):
     known_before = list(seen.get(dst, []))
     # the bridge learns the source on every frame it sees
     lst = seen.setdefault(src, [])
+    moved = bool(lst) and lst[-1] != inp
     if inp in lst: lst.remove(inp)
     lst.append(inp)
-    # was the destination's most recent appearance swallowed by a DROP flow (installed by the controller when a
-    # frame's destination sits on its ingress port; it matches without in_port for 10 s)?  A forwarding flow
-    # cannot hide a move, because its match includes the ingress port.
+    # "...to exactly the most recent such port whenever no older cached flow for that traffic is still installed":
+    # a frame that shows the source on a NEW port but is absorbed in the switch by a flow installed earlier (the host
+    # moved away and came back while the flow for its old traffic was still cached; forwarding and drop flows alike,
+    # both match on the ingress port) never reaches the controller, so the controller cannot know the move.
     hidden_before = self.hidden[sw].get(dst, False)
-    self.hidden[sw][src] = (absorbed == "drop")
+    self.hidden[sw][src] = (absorbed in ("drop", "fwd")) and moved
     ports = [q for q, _ in ems]
     where = "switch %d, frame %s->%s in port %d" % (sw + 1, src.hex()[-2:], dst.hex(), inp)
     if inp in ports: self.fail("back-out-ingress", "%s: emitted on its ingress port" % where)
@@ -205,13 +207,13 @@ class World (object):
     if not set(ports) <= set(known_before):
       self.fail("known:wrong-port", "%s: destination was seen on port(s) %r, emitted on %r" % (where, known_before, ports))
       return
-    if missed:
+    if missed and not hidden_before:
       # went to the controller: must go to exactly the most recent port (nothing if that is the ingress port)
       want = [known_before[-1]] if known_before[-1] != inp else []
       if ports != want:
-        self.fail("known:not-most-recent" + (":hidden-by-drop-flow" if hidden_before else ""),
-                  "%s: handled by the controller, destination most recently seen on port %d (history %r%s), emitted on %r"
-                  % (where, known_before[-1], known_before, "; its last frame was swallowed by a drop flow" if hidden_before else "", ports))
+        self.fail("known:not-most-recent",
+                  "%s: handled by the controller, destination most recently seen on port %d (history %r), emitted on %r"
+                  % (where, known_before[-1], known_before, ports))
 
   def check_buffers (self):
     used = self.net.buffers_in_use()
